@@ -54,6 +54,10 @@ ERROR_EXIT = ('error-exit', {'files': [('f0.c', 'abcdef')], 'timeout': 4, 'slow_
                             'cfg': {'N': 4, 'die': True}})
 
 
+ERROR_EXIT_HANGS = ('error-exit-hangs', {'files': [('f0.c', 'abcdef')], 'rules': [([('lenlt', 0, 6)], 'timeout'), ([], 0)],
+                                         'passes': [{'key': 1, 'ops': [('del', 0), ('del', 1), ('same',), ('del', 2)], 'aos': 0}], 'cfg': {'N': 4, 'die': True}})
+
+
 def real_case(ctx, sc, tag, fork):
     o = realrun.run_real(sc, ctx.tmp, timeout=sc.get('timeout', 1), fork_on_hang=fork)
     ctx.evaluations += 1
@@ -180,6 +184,10 @@ def explore(ctx):
     if not any(p['code'] for p in o.passes):
         ctx.broke('harness', 'error-exit scenario', 'the run did not end by an error')
     ctx.sample({'real_pool': 'error-exit', 'tests_started': len(o.log), 'alive_after': o.alive, 'exit': [p['code'] for p in o.passes]})
+    # ... and while other candidates' tests hang past the timeout (their workers are killed by the pool, the scripts orphaned)
+    o = real_case(ctx, ERROR_EXIT_HANGS[1], ERROR_EXIT_HANGS[0], False)
+    if not any(p['code'] for p in o.passes):
+        ctx.broke('harness', 'error-exit-hangs scenario', 'the run did not end by an error')
     reals = REAL_SCENARIOS if not ctx.quick() else REAL_SCENARIOS[1:3]      # 'mixed' and 'all-timeout' (a round without a winner)
     for tag, sc in reals:
         for fork in ((False, True) if tag != 'two-files' else (False,)):
